@@ -275,7 +275,9 @@ impl EncodingFile {
         let trailing_espec = if trailing_data.is_empty() {
             None
         } else {
-            Some(String::from_utf8_lossy(&trailing_data).to_string())
+            Some(String::from_utf8(trailing_data).map_err(|e| {
+                EncodingError::InvalidESpec(format!("trailing ESpec is not valid UTF-8: {e}"))
+            })?)
         };
 
         Ok(Self {
